@@ -255,6 +255,14 @@ def run(ctx):
         N, n = c["N"], c["n"]
         lines.append(["hamprop", N, n] + fbs(c["H1"]) + fbs(c["H0"]) + fbs(c["d1"]) + fbs(c["d0"]) + fbs(c["v1"]) + fbs(c["v0"]))
         meta.append(("hamprop", c, W, integ))
+        if not cap.calls:
+            # the step did not go through numpy.linalg.eigh (some shortcut): the model cannot be fed LAPACK's result;
+            # the state it produced is judged by the oracle alone
+            ctx.corr_mismatch(integ + "step", {"N": N, "dt": c["dt"]}, "propagate_electronics(%s) did not call numpy.linalg.eigh" % integ)
+            ok_, obs_, req_, text_ = oracle_step({"case": c, "integ": integ})
+            if not ok_:
+                ctx.oracle_fail("invalid-state-after-step:" + integ, "step", {"case": c, "integ": integ}, obs_, req_, text_)
+            continue
         a, w, cf = cap.calls[0]
         if integ == "exp":
             lines.append(["expstep", N] + fbs(w) + cbs(cf) + [fb(c["dt"])] + cbs(c["rho"]))
